@@ -14,8 +14,8 @@ use std::panic::{catch_unwind, AssertUnwindSafe};
 // =====================================================================
 // C13
 // =====================================================================
-fn c13_image() -> ImageSet {
-    let mut s = ImageSpec::new(12, 4, 32 << 12);
+fn c13_image(cb: u32) -> ImageSet {
+    let mut s = ImageSpec::new(cb, 4, 32 << cb);
     s.kinds = vec![GKind::Unalloc; 32];
     s.kinds[0] = GKind::Data;
     s.kinds[1] = GKind::Data;
@@ -25,11 +25,15 @@ fn c13_image() -> ImageSet {
 
 pub fn c13() -> i32 {
     let run = Run::new("C13", "exploration");
-    let img = c13_image();
+    let imgs: Vec<ImageSet> = [9u32, 12, 16].iter().map(|cb| c13_image(*cb)).collect();
+    let mut cases: Vec<(usize, u8, &'static str, &'static str, u64, usize)> = vec![];
+    for (ii, img) in imgs.iter().enumerate() {
     let v = img.rd.vsize;
-    let cs = 4096u64;
-    let mut cases: Vec<(u8, &'static str, &'static str, u64, usize)> = vec![];
+    let cs = 1u64 << img.cluster_bits;
     for bs_bits in [9u8, 10, 11, 12] {
+        if bs_bits as u32 > img.cluster_bits {
+            continue;
+        }
         let bs = 1u64 << bs_bits;
         let offs = [0, 1, bs / 2, bs - 1, bs, v - bs, v - 1, v, v + 1, v + bs, 1 << 32, 1 << 63, u64::MAX - bs + 1, u64::MAX - 1, u64::MAX];
         let lens = [0usize, 1, (bs - 1) as usize, bs as usize, (bs + 1) as usize, (2 * bs) as usize, cs as usize, (cs + bs) as usize, (3 * cs) as usize];
@@ -37,26 +41,30 @@ pub fn c13() -> i32 {
             for op in ["read", "write", "discard"] {
                 for o in offs {
                     for l in lens {
-                        cases.push((bs_bits, mode, op, o, l));
+                        cases.push((ii, bs_bits, mode, op, o, l));
                     }
                 }
                 if op == "discard" {
                     for o in offs {
                         for l in [v, u64::MAX, u64::MAX - cs] {
-                            cases.push((bs_bits, mode, "discard-big", o, l as usize));
+                            cases.push((ii, bs_bits, mode, "discard-big", o, l as usize));
                         }
                     }
                 }
             }
         }
     }
+    }
     qcow2_rs::verif::set_order_salt(0);
     let results: Vec<(Vec<Violation>, String)> = cases
         .par_iter()
-        .map(|&(bs_bits, mode, op, off, len)| {
+        .map(|&(ii, bs_bits, mode, op, off, len)| {
             let mut out = vec![];
+            let img = &imgs[ii];
+            let v = img.rd.vsize;
             let bs = 1u64 << bs_bits;
-            let cfg = DevCfg { bs_bits, l2: Some((12, 2 << 12)), rb: Some((12, 2 << 12)) };
+            let sb = img.cluster_bits.min(12) as u8;
+            let cfg = DevCfg { bs_bits, l2: Some((sb, 2usize << sb)), rb: Some((sb, 2usize << sb)) };
             let sim = Sim::new(img.files.clone());
             let params = {
                 let mut p = cfg.params(mode != "rw", false);
@@ -68,8 +76,8 @@ pub fn c13() -> i32 {
             let mk = |class: String, detail: String| Violation {
                 prop: "C13".into(),
                 class: format!("{}|mode={}", class, mode),
-                detail: format!("{} [bs={} mode={} {}(off={:#x}, len={:#x})]", detail, bs, mode, op, off, len),
-                replay: json!({"engine":"enum-c13","bs_bits":bs_bits,"mode":mode,"op":op,"off":off,"len":len}),
+                detail: format!("{} [cluster_bits={} bs={} mode={} {}(off={:#x}, len={:#x})]", detail, img.cluster_bits, bs, mode, op, off, len),
+                replay: json!({"engine":"enum-c13","cluster_bits":img.cluster_bits,"bs_bits":bs_bits,"mode":mode,"op":op,"off":off,"len":len}),
             };
             let dev = match catch_unwind(AssertUnwindSafe(|| {
                 let (d, _) = crate::world::block_on(qcow2_rs::utils::qcow2_alloc_dev(
@@ -236,8 +244,8 @@ pub fn c13() -> i32 {
     let cov = json!({
         "evaluations": n,
         "distinct_nontrivial": distinct.len(),
-        "rule": "complete product of offsets {0,1,BS/2,BS-1,BS,V-BS,V-1,V,V+1,V+BS,2^32,2^63,2^64-BS,2^64-2,2^64-1} x lengths {0,1,BS-1,BS,BS+1,2BS,CS,CS+BS,3CS} (+ huge discard lengths) x block sizes 512..4096 x {writable, read-only, backing-marked} x {read_at, write_at, discard}, one fresh device per call; distinct_nontrivial = distinct (operation, mode, result shape) outcomes observed",
-        "samples": cases.iter().step_by(cases.len() / 6 + 1).map(|c| format!("bs={} {} {}(off={:#x},len={:#x})", 1u32 << c.0, c.1, c.2, c.3, c.4)).collect::<Vec<_>>(),
+        "rule": "complete product of offsets {0,1,BS/2,BS-1,BS,V-BS,V-1,V,V+1,V+BS,2^32,2^63,2^64-BS,2^64-2,2^64-1} x lengths {0,1,BS-1,BS,BS+1,2BS,CS,CS+BS,3CS} (+ huge discard lengths) x cluster sizes {512, 4 KiB, 64 KiB} x block sizes 512..4096 (<= cluster) x {writable, read-only, backing-marked} x {read_at, write_at, discard}, one fresh device per call; distinct_nontrivial = distinct (operation, mode, result shape) outcomes observed",
+        "samples": cases.iter().step_by(cases.len() / 6 + 1).map(|c| format!("bs={} {} {}(off={:#x},len={:#x})", 1u32 << c.1, c.2, c.3, c.4, c.5)).collect::<Vec<_>>(),
         "outcomes": distinct.iter().collect::<Vec<_>>(),
         "exhaustive": true,
     });
